@@ -7,6 +7,7 @@ import (
 	"fmt"
 	"os"
 	"strconv"
+	"syscall"
 )
 
 type runFn func(res *Result, d *Driver, tier string, seed uint64)
@@ -18,6 +19,8 @@ func main() {
 		fmt.Fprintln(os.Stderr, "usage: verifharness <property|consts|probe-helper> [-tier quick|thorough] [-out file]")
 		os.Exit(2)
 	}
+	// programs that fault on purpose must not leave core files behind, whatever the caller's limit is
+	syscall.Setrlimit(syscall.RLIMIT_CORE, &syscall.Rlimit{Cur: 0, Max: 0})
 	sub := os.Args[1]
 	if fn, ok := helpers[sub]; ok {
 		fn(os.Args[2:])
